@@ -377,7 +377,7 @@ class MergeData(Contract):
     loops = {1: LoopSpec(_md_inv, _md_havoc, "for-input")}
     has_native = True
     max_paths = 20000
-    bounded_scope = "one input holding the same data name and type twice (first set with 0-4 no-data entries, float and integer); 2-3 point clouds / curves with 0-2 float data each (names shared or not, entity types shared between differently named data or not, vertex or cell association, inputs without data in any position; about half of the cases on a file, re-opened and compared again); deductive part: any number of inputs, each with 0-2 children, label table abstracted to 0-1 earlier label"
+    bounded_scope = "inputs holding numeric data associated with the object as a whole (1 or 3 values, on either or both inputs); one input holding the same data name and type twice (first set with 0-4 no-data entries, float and integer); 2-3 point clouds / curves with 0-2 float data each (names shared or not, entity types shared between differently named data or not, vertex or cell association, inputs without data in any position; about half of the cases on a file, re-opened and compared again); deductive part: any number of inputs, each with 0-2 children, label table abstracted to 0-1 earlier label"
 
     def setup(self, ctx):
         ctx.env["ndv"] = sym("nan_value", "real")
@@ -399,6 +399,10 @@ class MergeData(Contract):
         sub = [0, 1, 3, 4]
         for combo in itertools.product(sub, repeat=3):
             yield {"inputs": [opts[i] for i in combo], "nv": [2, 3, 2]}
+        # data that belong to an input as a whole (OBJECT association): carried over with their values
+        for pos in (0, 1, "both"):
+            for n in (1, 3):
+                yield {"whole": True, "pos": pos, "n": n}
         # the same name (and type) twice on one input: both sets are data of that input and both are kept
         for gaps in ([], [1], [0, 3], [0, 1, 2, 3]):
             for kind in ("float", "integer"):
@@ -416,6 +420,8 @@ class MergeData(Contract):
 
         if case.get("dup"):
             return self._native_dup(case)
+        if case.get("whole"):
+            return self._native_whole(case)
         reopen = sum(len(x) for x in case["inputs"]) % 2 == 1 or len(case["inputs"]) == 3
         tmp = tempfile.mkdtemp() if reopen else None
         try:
@@ -423,6 +429,36 @@ class MergeData(Contract):
         finally:
             if tmp:
                 shutil.rmtree(tmp, ignore_errors=True)
+
+    def _native_whole(self, case):
+        import warnings
+
+        from geoh5py.objects import Points
+        from geoh5py.shared.merging import PointsMerger
+        from geoh5py.workspace import Workspace
+
+        with Workspace() as ws, warnings.catch_warnings():
+            warnings.simplefilter("ignore")
+            objs = [Points.create(ws, vertices=np.c_[np.arange(3.0) + 10 * k, np.zeros(3), np.zeros(3)], name=f"in{k}") for k in range(2)]
+            want = []
+            for k, o in enumerate(objs):
+                o.add_data({"v": {"values": np.arange(3.0) + 10 * k}})
+                if case["pos"] in (k, "both"):
+                    vals = np.arange(float(case["n"])) + 100 * (k + 1)
+                    o.add_data({f"whole{k}": {"values": vals, "association": "OBJECT"}})
+                    want.append((f"whole{k}", vals))
+            try:
+                merged = PointsMerger.merge_objects(ws, objs)
+            except Exception as exc:
+                return f"merging inputs of which one holds numeric data associated with the object as a whole raised {type(exc).__name__}: {exc} ({case})"
+            v = [np.asarray(c.values, dtype=float) for c in merged.children if getattr(c, "name", None) == "v"]
+            if len(v) != 1 or not np.allclose(v[0], np.r_[np.arange(3.0), np.arange(3.0) + 10]):
+                return f"vertex data are not merged next to object-associated data: {[x.tolist() for x in v]} ({case})"
+            for name, vals in want:
+                got = [c for c in merged.children if getattr(c, "name", None) == name and getattr(c, "values", None) is not None]
+                if len(got) != 1 or got[0].association.name != "OBJECT" or not np.allclose(np.asarray(got[0].values, dtype=float), vals):
+                    return f"data '{name}' of an input (values {vals.tolist()}, belonging to the object as a whole) is not preserved on the merged object ({case})"
+        return None
 
     def _native_dup(self, case):
         import warnings
